@@ -122,17 +122,20 @@ impl Scenario for Restart {
             let elem = *rng.pick(&[ElemT::U64, ElemT::U32, ElemT::Usize]);
             let hash = *rng.pick(&[HashT::Fnv, HashT::NoHash, HashT::SimA]);
             let m = rng.log_range(1, 128) as usize;
-            let mk = |rng: &mut Rng, n: usize| -> Vec<(u64, u64)> {
+            let mk = |rng: &mut Rng, n: usize, tiny: bool| -> Vec<(u64, u64)> {
                 let ids: Vec<u64> = gen_items(rng, n.max(1), ElemT::U32).into_iter().filter(|i| *i < PLACEHOLDER - 10).collect();
-                let ws = gen_weights(rng, ids.len(), false);
+                let ws = gen_weights(rng, ids.len(), tiny);
                 let mut v: Vec<(u64, u64)> = ids.iter().zip(ws.iter()).map(|(i, w)| (*i, w.to_bits())).collect();
                 rng.shuffle(&mut v);
                 v
             };
             let npre = rng.log_range(1, 200) as usize;
             let npost = rng.log_range(1, 200) as usize;
-            let pre = if rng.chance(0.1) { vec![] } else { mk(rng, npre) };
-            let post = mk(rng, npost);
+            // bottom-of-range weights leave registers unfilled: reset must still restore the initial state
+            let tiny_pre = rng.chance(0.08);
+            let tiny_post = tiny_pre && rng.chance(0.5);
+            let pre = if rng.chance(0.1) { vec![] } else { mk(rng, npre, tiny_pre) };
+            let post = mk(rng, npost, tiny_post);
             let post = if post.is_empty() { vec![(1, 1.0f64.to_bits())] } else { post };
             return RestartPlan::P2 { elem, hash, m, pre, post };
         }
